@@ -4,8 +4,12 @@
 package main
 
 import (
+	"encoding/hex"
 	"encoding/json"
+	"fmt"
+	"os"
 	"strconv"
+	"strings"
 	"time"
 
 	sdkmath "cosmossdk.io/math"
@@ -28,18 +32,21 @@ import (
 var signals = []string{"CS:A", "CS:B", "CS:C"}
 
 type caseT struct {
-	app     *fx.App
-	ctx     sdk.Context
-	tr      *fx.Trace
-	r       *fx.Rng
-	ms      tunneltypes.MsgServer
-	tms     tsstypes.MsgServer
-	g       *tssfx.Group
-	now     int64
-	n       uint64
-	base    int64
-	route   int64
-	creator []int
+	reported map[[2]uint64]bool  // TSS packets whose signed bytes were already put in the trace
+	pending  []func(sdk.Context) // price changes the next feeds end-blocker makes
+	reasons  []string            // why the route refused the packets of the last end-block
+	app      *fx.App
+	ctx      sdk.Context
+	tr       *fx.Trace
+	r        *fx.Rng
+	ms       tunneltypes.MsgServer
+	tms      tsstypes.MsgServer
+	g        *tssfx.Group
+	now      int64
+	n        uint64
+	base     int64
+	route    int64
+	creator  []int
 	// fault: the route panics in the next end-block (a tss member record with an unparsable address makes
 	// GetAvailableMembers panic inside SendPacket, which recovers it)
 	panicNext bool
@@ -104,8 +111,50 @@ func (c *caseT) noReceipt() [][]uint64 {
 	return out
 }
 
+// newlySigned lists, for every stored TSS packet not reported before, the bytes the signing group was asked to sign for it:
+// [tunnel, sequence, created_at, number of prices, message]
+func (c *caseT) newlySigned() [][]any {
+	out := [][]any{}
+	k := c.app.TunnelKeeper
+	for id := uint64(1); id <= c.n; id++ {
+		t, err := k.GetTunnel(c.ctx, id)
+		if err != nil {
+			continue
+		}
+		for q := uint64(1); q <= t.Sequence+2; q++ {
+			key := [2]uint64{id, q}
+			if c.reported[key] {
+				continue
+			}
+			pk, err := k.GetPacket(c.ctx, id, q)
+			if err != nil || pk.Receipt == nil {
+				continue
+			}
+			rv, err := pk.GetReceiptValue()
+			if err != nil {
+				continue
+			}
+			tr, ok := rv.(*tunneltypes.TSSPacketReceipt)
+			if !ok {
+				continue
+			}
+			bs, err := c.app.BandtssKeeper.GetSigning(c.ctx, tr.SigningID)
+			if err != nil {
+				continue
+			}
+			sg, err := c.app.TSSKeeper.GetSigning(c.ctx, bs.CurrentGroupSigningID)
+			if err != nil {
+				continue
+			}
+			c.reported[key] = true
+			out = append(out, []any{id, q, pk.CreatedAt, len(pk.Prices), hex.EncodeToString(sg.Message)})
+		}
+	}
+	return out
+}
+
 func (c *caseT) emit(m fx.M, errS string, withErr bool) {
-	m["obs"] = fx.M{"noReceipt": c.noReceipt()}
+	m["obs"] = fx.M{"noReceipt": c.noReceipt(), "signed": c.newlySigned()}
 	out := c.dump()
 	if withErr {
 		out["err"] = errS
@@ -122,37 +171,56 @@ func (c *caseT) feeds() [][]any {
 	return out
 }
 
+// setPrices decides what the feeds end-blocker of the NEXT block end computes (the harness stands in for the validators'
+// submissions and the median): the changes are applied where the feeds module runs in the application's end-block order
 func (c *caseT) setPrices() {
 	r := c.r
 	for _, s := range signals {
+		s := s
 		switch r.Intn(6) {
 		case 0: // leave as is
 		case 1: // remove from the feeds store (missing feed)
-			c.ctx.KVStore(c.app.GetKey(feedstypes.StoreKey)).Delete(feedstypes.PriceStoreKey(s))
+			c.pending = append(c.pending, func(ctx sdk.Context) {
+				ctx.KVStore(c.app.GetKey(feedstypes.StoreKey)).Delete(feedstypes.PriceStoreKey(s))
+			})
 		default:
-			old := c.app.FeedsKeeper.GetPrice(c.ctx, s).Price
-			var p uint64
-			switch r.Intn(8) {
-			case 0:
-				p = 0
-			case 1:
-				p = old
-			case 2:
-				p = old + old/100 // exactly 100 bps up
-			case 3:
-				p = old + old/100 - 1
-			case 4:
-				p = old + old/50 // 200 bps
-			case 5:
-				if old > old/50 {
-					p = old - old/50
-				}
-			default:
-				p = uint64(r.Range(1, 100000))
-			}
+			kind := r.Intn(8)
+			rnd := uint64(r.Range(1, 100000))
+			zero := r.Chance(1, 15)
 			st := feedstypes.PriceStatus(r.PickInt(3, 3, 3, 2, 1))
-			c.app.FeedsKeeper.SetPrice(c.ctx, feedstypes.NewPrice(st, s, p, c.now))
+			c.pending = append(c.pending, func(ctx sdk.Context) {
+				old := c.app.FeedsKeeper.GetPrice(ctx, s).Price
+				var p uint64
+				switch kind {
+				case 0:
+					p = 0
+				case 1:
+					p = old
+				case 2:
+					p = old + old/100 // exactly 100 bps up
+				case 3:
+					p = old + old/100 - 1
+				case 4:
+					p = old + old/50 // 200 bps
+				case 5:
+					if old > old/50 {
+						p = old - old/50
+					}
+				default:
+					p = rnd
+				}
+				if zero {
+					p = 0 // an available price of zero is legal (only non-available statuses must carry price 0)
+				}
+				c.app.FeedsKeeper.SetPrice(ctx, feedstypes.NewPrice(st, s, p, ctx.BlockTime().Unix()))
+			})
 		}
+	}
+}
+
+func (c *caseT) applyPending(ctx sdk.Context) {
+	for _, f := range c.pending {
+		f(ctx)
 	}
 }
 
@@ -178,6 +246,12 @@ func (c *caseT) failedTunnels(ev sdk.Events) []uint64 {
 					id, _ := strconv.ParseUint(a.Value, 10, 64)
 					out = append(out, id)
 				}
+				if a.Key == tunneltypes.AttributeKeyReason {
+					c.reasons = append(c.reasons, a.Value)
+					if os.Getenv("C08_DEBUG") != "" {
+						fmt.Fprintln(os.Stderr, "REASON", a.Value)
+					}
+				}
 			}
 		}
 	}
@@ -185,7 +259,14 @@ func (c *caseT) failedTunnels(ev sdk.Events) []uint64 {
 }
 
 func (c *caseT) endBlock() {
+	// the prices of THIS block are what the feeds end-blocker leaves (computed here on a branch): they are what the trigger
+	// rule of the tunnels is stated against
+	bctx, _ := c.ctx.CacheContext()
+	c.applyPending(bctx)
+	saveCtx := c.ctx
+	c.ctx = bctx
 	feeds := c.feeds()
+	c.ctx = saveCtx
 	ctx := c.ctx.WithEventManager(sdk.NewEventManager())
 	var saved *tsstypes.Member
 	if c.panicNext && c.g != nil {
@@ -197,13 +278,43 @@ func (c *caseT) endBlock() {
 			c.tr.Tag("fault-route-panics")
 		}
 	}
+	injected := saved != nil
 	c.panicNext = false
-	e := fx.Try(func() error { return tunnel.EndBlocker(ctx, c.app.TunnelKeeper) })
+	c.reasons = nil
+	e := fx.Try(func() error {
+		// the two modules in the order the APPLICATION runs its end-blockers
+		for _, mod := range c.app.EndBlockOrderForVerif() {
+			switch mod {
+			case feedstypes.ModuleName:
+				c.applyPending(ctx)
+				c.pending = nil
+			case tunneltypes.ModuleName:
+				if err := tunnel.EndBlocker(ctx, c.app.TunnelKeeper); err != nil {
+					return err
+				}
+			}
+		}
+		return nil
+	})
+	c.applyPending(ctx) // (only if the feeds module is not in the order at all)
+	c.pending = nil
 	if saved != nil {
 		c.app.TSSKeeper.SetMember(c.ctx, *saved)
 	}
 	failed := c.failedTunnels(ctx.EventManager().Events())
-	m := fx.M{"op": "endBlock", "feeds": feeds, "now": c.now / 1, "routeFailed": failed}
+	// a route may refuse a packet for the faults the scenarios contain — no signing group, too few members with a nonce, a
+	// fee above the limit, no IBC channel, the injected panic — and for nothing else
+	unexplained := []string{}
+	for _, why := range c.reasons {
+		switch {
+		case strings.Contains(why, "channel capability not found"), strings.Contains(why, "no active group"),
+			strings.Contains(why, "insufficient members"), strings.Contains(why, "fee"):
+		case strings.Contains(why, "panic in sending packet") && injected:
+		default:
+			unexplained = append(unexplained, why)
+		}
+	}
+	m := fx.M{"op": "endBlock", "feeds": feeds, "now": c.now / 1, "routeFailed": failed, "unexplainedFailures": unexplained}
 	if e != "" {
 		c.tr.Op(fx.M{"op": "endBlock", "feeds": feeds, "now": c.now, "routeFailed": failed, "out": fx.M{"panic": true, "err": e}})
 	} else {
@@ -233,7 +344,7 @@ func (c *caseT) trigger() {
 
 func runCase(app *fx.App, tr *fx.Trace, r *fx.Rng, caseNo int) {
 	ctx, _ := app.Ctx.CacheContext()
-	c := &caseT{app: app, ctx: ctx, tr: tr, r: r, ms: tunnelkeeper.NewMsgServerImpl(app.TunnelKeeper), tms: tsskeeper.NewMsgServerImpl(app.TSSKeeper)}
+	c := &caseT{reported: map[[2]uint64]bool{}, app: app, ctx: ctx, tr: tr, r: r, ms: tunnelkeeper.NewMsgServerImpl(app.TunnelKeeper), tms: tsskeeper.NewMsgServerImpl(app.TSSKeeper)}
 	c.now = 1_700_000_000
 	c.ctx = c.ctx.WithBlockTime(time.Unix(c.now, 0).UTC()).WithBlockHeight(int64(r.Range(10, 20)))
 	tr.Reset(nil)
@@ -288,7 +399,11 @@ func runCase(app *fx.App, tr *fx.Trace, r *fx.Rng, caseNo int) {
 		var err error
 		dep := sdk.NewCoins(sdk.NewInt64Coin("uband", 10))
 		if isTSS {
-			msg, err = tunneltypes.NewMsgCreateTSSTunnel(sds, interval, "eth", "0xabc", feedstypes.ENCODER_FIXED_POINT_ABI, dep, creators[cr].Address.String())
+			enc := feedstypes.ENCODER_FIXED_POINT_ABI
+			if r.Bool() {
+				enc = feedstypes.ENCODER_TICK_ABI
+			}
+			msg, err = tunneltypes.NewMsgCreateTSSTunnel(sds, interval, "eth", "0xabc", enc, dep, creators[cr].Address.String())
 		} else {
 			msg, err = tunneltypes.NewMsgCreateIBCTunnel(sds, interval, dep, creators[cr].Address.String())
 		}
@@ -326,8 +441,21 @@ func runCase(app *fx.App, tr *fx.Trace, r *fx.Rng, caseNo int) {
 			if r.Chance(4, 5) {
 				c.supplyDEs()
 			}
-		case x < 16:
+		case x < 15:
 			c.trigger()
+		case x < 16:
+			// the creator switches a tunnel off or back on (real messages); switching on is not a send: what was due stays due
+			id := uint64(1 + r.Intn(int(c.n)))
+			t, _ := app.TunnelKeeper.GetTunnel(c.ctx, id)
+			c.now += int64(r.PickInt(0, 1, 7, 100))
+			c.ctx = c.ctx.WithBlockTime(time.Unix(c.now, 0).UTC())
+			var err error
+			if t.IsActive {
+				_, err = c.ms.Deactivate(c.ctx, tunneltypes.NewMsgDeactivate(id, t.Creator))
+			} else {
+				_, err = c.ms.Activate(c.ctx, tunneltypes.NewMsgActivate(id, t.Creator))
+			}
+			c.emit(fx.M{"op": "setActive", "id": id, "active": !t.IsActive, "now": c.now}, fx.ErrStr(err), true)
 		case x < 18:
 			id := uint64(1 + r.Intn(int(c.n)))
 			t, _ := app.TunnelKeeper.GetTunnel(c.ctx, id)
